@@ -377,13 +377,6 @@ def run_case(case, obs):
         except OptimizationAborted:
             obs.count("aborted_by_filter_or_estimator")
             continue
-        except ValueError as exc:
-            # merged estimation with no positive-weight survivor for some function ends in an empty least-squares system;
-            # the quantifier of C02 excludes that situation (C14 judges exceptions) - make sure that is what happened
-            if _some_function_without_survivor(spec, cfg, pm, x):
-                obs.count("trivial.no_survivor_exception")
-                continue
-            raise exc
         if judge_gradient(obs, spec, cfg, gres, fvals, pvals, path):
             obs.nontrivial(case["i"], path)
     obs.sample({"V": spec["V"], "R": R, "P": P, "merge": spec["merge"], "mask": spec.get("mask"), "sampler": spec["samplers"][0]["method"],
